@@ -96,6 +96,7 @@ SCALARS = [
     ("Color", Color, [Color.RED, Color.BLUE]),
     ("Num", Num, [Num.ONE, Num.TWO]),
     ("Literal", typing.Literal["a", 2, None], ["a", 2, None]),
+    ("Literal[1,x]", typing.Literal[1, "x"], [1, "x"]),
 ]
 
 
